@@ -80,7 +80,15 @@ pub fn bval(v: &Value) -> Option<Vec<u8>> {
 }
 
 pub fn ival(v: &Value) -> Option<u64> {
-    unwrap_opt(v)?.as_u64()
+    let v = unwrap_opt(v)?;
+    if let Some(a) = v.as_array() {
+        // a four-byte integer given as its bytes (the TLA+ side cannot hold 2^32-1 in an integer)
+        if a.len() == 4 {
+            return Some(a.iter().fold(0u64, |acc, b| (acc << 8) | (b.as_u64().unwrap_or(0) & 0xff)));
+        }
+        return None;
+    }
+    v.as_u64()
 }
 
 pub fn boolval(v: &Value) -> Option<bool> {
@@ -529,7 +537,7 @@ pub fn call_line(spec: &Value) -> Value {
             pl = plen(&o.payload);
             tag = o.topic.as_ref().map(|t| String::from_utf8_lossy(t).into_owned()).unwrap_or_default();
             if tag.len() > 32 {
-                tag.truncate(32);
+                tag = tag.chars().take(16).collect();
             }
             if o.pfi.is_some() {
                 ps.push(json!([0x01, 0, 0]));
